@@ -591,7 +591,7 @@ theorem construct_table_complete :
     Gen.C19.constructTable.map (fun r => (r.1, r.2.1)) =
       (["str", "sid", "int", "float", "bool", "opt", "li", "dna", "strand", "inner"].flatMap (fun k =>
         ["list_str", "list_int", "list_float", "list_bool", "list_none", "nd_int", "nd_float", "nd_bool", "nd_str",
-         "nd_obj_int", "series_obj_int", "encoded_ragged", "dna_ragged", "string_array", "ragged_int", "list_list_int", "table", "list_entries",
+         "nd_obj_int", "series_obj_int", "actg_ragged", "actg_flat", "encoded_ragged", "dna_ragged", "string_array", "ragged_int", "list_list_int", "table", "list_entries",
          "series_str", "series_int", "strand_str"].map (fun f => (k, f)))) := by decide +kernel
 
 theorem takeWhile_all {β} (p : β → Bool) (l : List β) (h : ∀ x ∈ l, p x = true) : l.takeWhile p = l := by
